@@ -39,6 +39,9 @@ InitMC == /\ Init /\ inits = <<>> /\ phase = "idle" /\ inside = 0 /\ seen = 0 /\
 
 DoInit(n) == /\ Idle /\ InitSys(n) /\ inits' = Append(inits, n) /\ steps' = steps + 1
              /\ UNCHANGED <<phase, inside, seen, run, over, who>>
+\* a burst of re-initialisations is one macro step of the contract; the history records its single arguments
+DoBurst(b) == /\ Idle /\ InitBurst(b) /\ inits' = inits \o [i \in 1..b.cnt |-> BurstArg(b, i)] /\ steps' = steps + 1
+              /\ UNCHANGED <<phase, inside, seen, run, over, who>>
 DoQuery(f, r) == /\ Idle /\ Query(f, r) /\ steps' = steps + 1
                  /\ UNCHANGED <<inits, phase, inside, seen, run, over, who>>
 BeginLoop(f, s) == /\ Idle /\ phase' = "loop" /\ inside' = 0 /\ seen' = 0 /\ run' = <<>> /\ over' = FALSE /\ who' = <<f, s>>
@@ -60,6 +63,7 @@ EndLoop == /\ phase = "loop" /\ inside = 0
            /\ UNCHANGED <<inits, inside, seen, run, over, who>>
 
 NextMC == \/ \E n \in Ns : DoInit(n)
+          \/ \E b \in BurstOpts : DoBurst(b)
           \/ \E f \in Froms, r \in RSet : DoQuery(f, r)
           \/ \E f \in Froms, s \in Shapes : BeginLoop(f, s)
           \/ Enter \/ Exit \/ EndLoop
@@ -73,32 +77,53 @@ SummaryIsMomentary == (phase = "loop") => /\ Peak(run) = seen
                                           /\ (over <=> ~LoopOK(run))
 ReturnedLoopsWellFormed == (phase = "loop" /\ inside = 0) => WellFormed(run)
 
+AtRest == phase = "idle"      \* laws that do not mention the unfolded loop are evaluated between actions only
+\* laws that depend on <<inited, limit, reinit>> only: every value of the triple occurs right after an initialisation
+LawPoint == AtRest /\ last.a \in {"Start", "Init", "InitBurst"}
+
 \* 2. declarative reading of the statement over the history of initialisations
 LastInit == inits[Len(inits)]
 Declarative == /\ inited <=> (inits # <<>>)
                /\ limit = (IF inits # <<>> /\ LastInit > 0 THEN LastInit ELSE 0)
                /\ reinit <=> (Len(inits) >= 2)
 
+\* 2b. the macro actions are what they abbreviate
+MCBursts == {[cnt |-> c, n |-> n, cyc |-> y] : c \in 1..5, n \in {-1, 0, 2}, y \in {<<1, 2, 3>>, <<3>>, <<0, 4>>}}
+MCBurstOpts == {[cnt |-> 2, n |-> 0, cyc |-> <<1, 2, 3>>], [cnt |-> 4, n |-> 2, cyc |-> <<1, 2, 3>>]}
+RECURSIVE Iterate(_, _, _)
+Iterate(st, b, i) == IF i > b.cnt THEN st ELSE Iterate(AfterInit(st, BurstArg(b, i)), b, i + 1)
+BurstIsIteration == LawPoint => \A b \in MCBursts : BurstEffect(<<inited, limit, reinit>>, b) = Iterate(<<inited, limit, reinit>>, b, 1)
+\* the recording of several loops in a row (each ending with nobody inside) is judged like its parts
+ConcatLaw == LawPoint => \A d1, d2 \in DSet : (WellFormed(d1) /\ WellFormed(d2)) =>
+                          /\ WellFormed(d1 \o d2)
+                          /\ Peak(d1 \o d2) = Max2(Peak(d1), Peak(d2))
+                          /\ (LoopOK(d1 \o d2) <=> (LoopOK(d1) /\ LoopOK(d2)))
+\* size classes are ordered around the count in force and narrow index types cap the task count
+SizeLaws == LawPoint => /\ SizeK("zero") = 0 /\ SizeK("one") = 1
+                      /\ SizeK("below") < SizeK("equal") /\ SizeK("equal") = LoopBase /\ SizeK("above") = LoopBase + 1
+                      /\ SizeK("x4") >= 4 * LoopBase /\ SizeK("x4p1") = SizeK("x4") + 1
+                      /\ (limit > 0 => SizeK("above") > Cap(limit))
+                      /\ WithK([size |-> "b1025", api |-> "for:u8"]).k = 255 /\ WithK([size |-> "b1025", api |-> "for:int"]).k = 1025
+
 \* 3. laws of the allowed observations
 Allowed == {r \in RSet : QueryOK(r)}
-AtRest == phase = "idle"      \* these laws do not mention the unfolded loop: evaluate them between actions only
 ReportedLaws == AtRest =>
   /\ (inits = <<>>) => Allowed = {0}                                      \* before initialisation: 0
   /\ (inits # <<>> /\ LastInit > 0) =>                                     \* latest positive argument is reported ...
         Allowed = {IF Serial THEN 1 ELSE LastInit}                         \* ... (1 under the serial backend), also after re-initialisation
   /\ (inits # <<>> /\ LastInit <= 0) => (Allowed # {} /\ \A r \in Allowed : r >= 1)   \* default: positive
 NeverExceeded ==
-  (AtRest /\ inits # <<>> /\ LastInit > 0) =>
+  (LawPoint /\ inits # <<>> /\ LastInit > 0) =>
      \A d \in DSet : (WellFormed(d) /\ LoopOK(d)) => \A r \in Allowed : Peak(d) <= r /\ Peak(d) <= LastInit
-SerialIsOne == (AtRest /\ Serial /\ limit > 0) => \A d \in DSet : (WellFormed(d) /\ LoopOK(d)) => Peak(d) <= 1
+SerialIsOne == (LawPoint /\ Serial /\ limit > 0) => \A d \in DSet : (WellFormed(d) /\ LoopOK(d)) => Peak(d) <= 1
 \* where nothing is stated nothing is demanded: every well-formed loop is allowed while no positive count is in force
-OpenWhereUnstated == (AtRest /\ limit = 0) => \A d \in DSet : WellFormed(d) => LoopOK(d)
+OpenWhereUnstated == (LawPoint /\ limit = 0) => \A d \in DSet : WellFormed(d) => LoopOK(d)
 \* and the rule is monotone: a loop with a smaller peak than an allowed one is allowed
-Monotone == AtRest => \A d1, d2 \in DSet : (LoopOK(d1) /\ Peak(d2) <= Peak(d1)) => LoopOK(d2)
+Monotone == LawPoint => \A d1, d2 \in DSet : (LoopOK(d1) /\ Peak(d2) <= Peak(d1)) => LoopOK(d2)
 
 \* bounded instance (the backend kind comes from the environment so that one cfg serves the four backends)
 MCBackend == IF "BACKEND" \in DOMAIN IOEnv THEN IOEnv.BACKEND ELSE "TBB"
-MCNs   == {-1, 0, 1, 2, 3}
+MCNs   == {0, 1, 2, 3}
 MCRSet == 0..4
 MCDSet == {<<>>, <<1, -1>>, <<1, 1, -1, -1>>, <<1, -1, 1, -1>>, <<1, 1, 1, -1, -1, -1>>, <<1, 1, -1, 1, -1, -1>>,
            <<1, 1, 1, 1, -1, -1, -1, -1>>, <<-1, 1>>, <<1>>, <<1, 2, -3>>}
